@@ -237,6 +237,9 @@ func (tree *Tree[T]) match(ctx *types.Context, method string) (n *node[T], h T, 
 	if h, exists = n.handlers[method]; exists {
 		return n, h, true
 	}
+	if n == tree.node { // 路径 * 和空值仅用于 OPTIONS *，不存在其它请求方法的处理函数。
+		return nil, h, false
+	}
 	return n, n.handlers[methodNotAllowed], false
 }
 
